@@ -1516,9 +1516,33 @@ func ruleS17_8(c *Ctx, id string) {
 				if isStatusStore(x) {
 					return true
 				}
-				if _, isC := x.(*ssa.Call); isC {
-					if g := staticCallee(x); g != nil && IsRepoFunc(g) && g.Blocks != nil && !takesReplyBool(g) && allReturnsStore(g) {
+				if cl, isC := x.(*ssa.Call); isC {
+					g := staticCallee(x)
+					if g != nil && IsRepoFunc(g) && g.Blocks != nil && !takesReplyBool(g) && allReturnsStore(g) {
 						return true
+					}
+					// a function literal handed to a helper that runs it on all its paths ("with the lock held, do ...")
+					if g != nil && IsRepoFunc(g) && g.Blocks != nil {
+						fa := fullArgs(cl)
+						for i, a := range fa {
+							mc, isMC := a.(*ssa.MakeClosure)
+							if !isMC || i >= len(g.Params) {
+								continue
+							}
+							lit, _ := mc.Fn.(*ssa.Function)
+							if lit == nil || lit.Blocks == nil || !allReturnsStore(lit) {
+								continue
+							}
+							pm := g.Params[i]
+							callsIt := func(y ssa.Instruction) bool {
+								cc := callCommon(y)
+								return cc != nil && !cc.IsInvoke() && stripConv(cc.Value) == ssa.Value(pm)
+							}
+							e0 := g.Blocks[0].Instrs[0]
+							if callsIt(e0) || MustAfter(g, callsIt, nil)(e0) {
+								return true
+							}
+						}
 					}
 				}
 			}
